@@ -92,3 +92,58 @@ Theorem C04_wire_refuted_old : exists (P : params) (sched : list choice),
   p_unlocked P = true /\ ~ wire_statement P (run P sched).
 Proof. exact wire_refuted_old. Qed.
 Print Assumptions C04_wire_refuted_old.
+
+(* ---------------------------------------------------------------------------------------------
+   The same claim at BYTE level for the output queue of one channel (Model/ChanOut.v: write_soon and
+   _flush_some over the buffer model of C17, Model/Buffers.v).  The interleaving model above orders
+   the appends; this part shows that the list of output buffers delivers the appended bytes once, in
+   order and unmodified: for every configuration (STRBUF_LIMIT, outbuf_overflow,
+   outbuf_high_watermark, send_bytes, any positive sendbuf_len), every history of write_soon(bytes),
+   write_soon(file buffer) and _flush_some calls, and every behaviour of the socket (any number of
+   bytes accepted per send call, would-block, an OSError at any send), what the socket accepted
+   followed by what is still queued is exactly the concatenation of what was written -- across the
+   rotation to a fresh buffer at the high watermark, the hand-over of a wsgi.file_wrapper buffer,
+   the migration of a buffer between its three representations, partial sends with the local
+   outbuflen counter, and the pop-and-close of drained buffers; total_outbufs_len is exact and the
+   last buffer is always a writable OverflowableBuffer (self.outbufs[-1].append never fails). *)
+From WV Require Model.Buffers Model.ChanOut Spec.Fifo Proof.ChanOut.
+Module CO := WV.Model.ChanOut.
+Module COP := WV.Proof.ChanOut.
+
+Theorem C04_out_bytes_fifo : forall (c : CO.cfg) (ps : list CO.cop),
+  COP.cfg_ok c -> Forall COP.cop_ok ps ->
+  let r := CO.crun c CO.chan_new ps in
+  concat (map CO.written_by ps) = snd r ++ COP.cabs (fst r) /\
+  CO.total_outbufs_len (fst r) = WV.Spec.Fifo.q_len (COP.cabs (fst r)) /\
+  COP.lastw (CO.outbufs (fst r)) = true.
+Proof. exact COP.out_fifo_new. Qed.
+Print Assumptions C04_out_bytes_fifo.
+
+(* One call of _flush_some from any state the invariant allows: it ends (the fuel of the model is
+   never exhausted), no buffer operation raises and outbufs[0] always exists; the bytes the socket
+   accepted are a prefix of the queue and the rest is still queued; the local counter `sent` is their
+   number and the return value says whether there were any; no empty chunk is ever offered to send();
+   only drained buffers are popped and closed. *)
+Theorem C04_flush_some : forall (c : CO.cfg) (ch : CO.chan) (ans : list CO.answer),
+  COP.cfg_ok c -> COP.cinv ch ->
+  let f := CO.flush_some c ch ans in
+  (CO.f_stop f = CO.Done \/ CO.f_stop f = CO.SockRaised) /\
+  COP.cinv (CO.f_chan f) /\
+  COP.cabs ch = CO.f_wire f ++ COP.cabs (CO.f_chan f) /\
+  CO.f_sent f = WV.Model.Buffers.lenZ (CO.f_wire f) /\
+  CO.flush_result f = negb (Z.eqb (WV.Model.Buffers.lenZ (CO.f_wire f)) 0) /\
+  Forall COP.nonempty (CO.f_chunks f) /\
+  Forall COP.drained (CO.f_closed f) /\
+  CO.current_outbuf_count (CO.f_chan f) = CO.current_outbuf_count ch.
+Proof. exact COP.flush_some_explicit. Qed.
+Print Assumptions C04_flush_some.
+
+(* The hypotheses are met by a history with rotation, a file buffer, representation changes,
+   partial sends, a socket error and pops (Proof/ChanOut.v: ex_ops). *)
+Theorem C04_out_bytes_example :
+  COP.cfg_ok COP.ex_cfg /\ Forall COP.cop_ok COP.ex_ops /\
+  let r := CO.crun COP.ex_cfg CO.chan_new COP.ex_ops in
+  snd r = [1;2;3;4;5;6;7;8;9;8;7;6;5]%N /\ COP.cabs (fst r) = [10;11]%N /\
+  length (CO.outbufs (fst r)) = 1 /\ CO.total_outbufs_len (fst r) = 2%Z.
+Proof. exact (conj (proj1 COP.ex_ops_ok) (conj (proj2 COP.ex_ops_ok) COP.ex_run)). Qed.
+Print Assumptions C04_out_bytes_example.
